@@ -6,7 +6,8 @@
 //! The harness sends no PTP traffic at all here: it only starts, cuts, kills
 //! and reads the daemons' observation sockets.
 
-use crate::daemon::{daemon_binary, observe_at, sh, E2eOut};
+use crate::daemon::{daemon_binary, observe_at, sh, E2eOut, PSock};
+use crate::refcodec::{decode, T_ANNOUNCE};
 use crate::engine::*;
 use serde_json::json;
 use std::collections::BTreeSet;
@@ -32,6 +33,10 @@ enum Fault {
     Kill(usize),
     Cut(usize, usize),
     CutRestore(usize, usize),
+    /// the node is started only after the others have run for this many milliseconds
+    LateJoin(usize, u64),
+    /// the endpoint is out of its bridge from the start and joins after convergence
+    JoinLater(usize, usize),
 }
 
 #[derive(Clone, Debug)]
@@ -49,6 +54,20 @@ fn node_id(i: usize) -> [u8; 8] {
 }
 
 fn gen_scenario(t: &mut Tape, max_nodes: usize) -> Scenario {
+    if t.chance(1, 6) {
+        // the one cyclic shape: two boundary clocks in parallel between two shared segments, the grandmaster on the
+        // first and an ordinary clock on the second; the grandmaster is never the one that fails (a lost grandmaster
+        // in a cycle is the count-to-infinity case, minutes in real time)
+        let fault = match t.below(6) {
+            0 => Fault::Kill(1),
+            1 => Fault::Kill(2),
+            2 => Fault::Cut(1, 1),
+            3 => Fault::CutRestore(1, 1),
+            4 => Fault::CutRestore(2, 1),
+            _ => Fault::JoinLater(1, 1),
+        };
+        return Scenario { p1: vec![100, 128, 128, 128], nports: vec![1, 2, 2, 1], segments: vec![vec![(0, 0), (1, 0), (2, 0)], vec![(1, 1), (2, 1), (3, 0)]], path_trace: t.bool(), fault };
+    }
     let n = 2 + t.below(max_nodes as u64 - 1) as usize;
     // priority1: distinct values in generated order, or all equal (identity decides)
     let mut p1: Vec<u8> = if t.chance(1, 4) { vec![128; n] } else { (0..n).map(|i| 100 + 10 * i as u8).collect() };
@@ -74,8 +93,17 @@ fn gen_scenario(t: &mut Tape, max_nodes: usize) -> Scenario {
             nports[k] += 1;
         }
     }
+    // sometimes a node has a second port on one of its segments (the higher-numbered one must go passive)
+    if t.chance(1, 4) {
+        let cands: Vec<(usize, usize)> = segments.iter().enumerate().flat_map(|(si, s)| s.iter().filter(|e| nports[e.0] < 2).map(move |e| (si, e.0))).filter(|(si, _)| segments[*si].len() < 4).collect();
+        if !cands.is_empty() {
+            let (si, nd) = *t.pick(&cands);
+            segments[si].push((nd, nports[nd]));
+            nports[nd] += 1;
+        }
+    }
     let best = (0..n).min_by_key(|i| (p1[*i], node_id(*i))).unwrap();
-    let fault = match t.weighted(&[1, 3, 2, 3, 2]) {
+    let fault = match t.weighted(&[1, 3, 2, 3, 2, 1]) {
         0 => Fault::None,
         1 => Fault::Kill(best),
         2 => Fault::Kill(t.below(n as u64) as usize),
@@ -84,11 +112,13 @@ fn gen_scenario(t: &mut Tape, max_nodes: usize) -> Scenario {
             let e = *t.pick(&segments[s]);
             Fault::Cut(e.0, e.1)
         }
-        _ => {
+        4 => {
             let s = t.below(segments.len() as u64) as usize;
             let e = *t.pick(&segments[s]);
             Fault::CutRestore(e.0, e.1)
         }
+        // the best node joins a network that has been running without it for 10-18 s
+        _ => Fault::LateJoin(best, t.urange(10_000, 18_000)),
     };
     Scenario { p1, nports, segments, path_trace: t.bool(), fault }
 }
@@ -98,6 +128,8 @@ struct NetD {
     nodes: Vec<NodeD>,
     cut: BTreeSet<(usize, usize)>,
     tag: String,
+    /// one packet socket per segment, on the bridge device: what is really on the wire
+    sniffers: Vec<Option<PSock>>,
 }
 
 impl NetD {
@@ -105,7 +137,7 @@ impl NetD {
         format!("{}n{}p{}", self.tag, node, port)
     }
     fn start(sc: Scenario, tag: String) -> Result<NetD, String> {
-        let mut net = NetD { sc: sc.clone(), nodes: vec![], cut: BTreeSet::new(), tag };
+        let mut net = NetD { sc: sc.clone(), nodes: vec![], cut: BTreeSet::new(), tag, sniffers: vec![] };
         for (k, seg) in sc.segments.iter().enumerate() {
             let br = format!("{}sg{}", net.tag, k);
             sh(&format!("ip link add {} type bridge && ip link set {} type bridge stp_state 0 forward_delay 0 && ip link set {} up", br, br, br))?;
@@ -113,9 +145,14 @@ impl NetD {
                 let a = net.ifname(*nd, *p);
                 sh(&format!("ip link add {a} type veth peer name {a}b && ip link set {a} address 00:1b:19:a1:{:02x}:{:02x} && ip link set {a}b master {br} && ip link set {a} up && ip link set {a}b up", nd, p, a = a, br = br))?;
             }
+            net.sniffers.push(PSock::open(&br, false).ok());
+        }
+        if let Fault::JoinLater(a, b) = sc.fault {
+            net.set_cut((a, b), true);
         }
         static GEN: std::sync::atomic::AtomicU64 = std::sync::atomic::AtomicU64::new(0);
         let g = GEN.fetch_add(1, std::sync::atomic::Ordering::Relaxed);
+        let late = if let Fault::LateJoin(i, _) = sc.fault { Some(i) } else { None };
         for i in 0..sc.p1.len() {
             let dir = std::env::temp_dir().join(format!("vcheck-net-{}-{}-{}", std::process::id(), g, i));
             std::fs::create_dir_all(&dir).map_err(|e| e.to_string())?;
@@ -131,19 +168,47 @@ impl NetD {
             }
             cfg += &format!("\n[observability]\nobservation-path = \"{}\"\n", dir.join("obs.sock").display());
             std::fs::write(dir.join("statime.toml"), cfg).map_err(|e| e.to_string())?;
-            let log = std::fs::File::create(dir.join("daemon.log")).map_err(|e| e.to_string())?;
-            let mut cmd = Command::new(daemon_binary());
-            unsafe {
-                use std::os::unix::process::CommandExt;
-                cmd.pre_exec(|| {
-                    libc::prctl(libc::PR_SET_PDEATHSIG, libc::SIGKILL);
-                    Ok(())
-                });
+            net.nodes.push(NodeD { child: None, dir, id, p1: sc.p1[i], nports: sc.nports[i] });
+            if late != Some(i) {
+                net.spawn(i)?;
             }
-            let child = cmd.arg("-c").arg(dir.join("statime.toml")).stdin(Stdio::null()).stdout(log.try_clone().map_err(|e| e.to_string())?).stderr(log).spawn().map_err(|e| format!("spawn daemon: {}", e))?;
-            net.nodes.push(NodeD { child: Some(child), dir, id, p1: sc.p1[i], nports: sc.nports[i] });
         }
         Ok(net)
+    }
+
+    fn spawn(&mut self, i: usize) -> Result<(), String> {
+        let dir = self.nodes[i].dir.clone();
+        let log = std::fs::File::create(dir.join("daemon.log")).map_err(|e| e.to_string())?;
+        let mut cmd = Command::new(daemon_binary());
+        unsafe {
+            use std::os::unix::process::CommandExt;
+            cmd.pre_exec(|| {
+                libc::prctl(libc::PR_SET_PDEATHSIG, libc::SIGKILL);
+                Ok(())
+            });
+        }
+        let child = cmd.arg("-c").arg(dir.join("statime.toml")).stdin(Stdio::null()).stdout(log.try_clone().map_err(|e| e.to_string())?).stderr(log).spawn().map_err(|e| format!("spawn daemon: {}", e))?;
+        self.nodes[i].child = Some(child);
+        Ok(())
+    }
+
+    /// Announce senders seen on every segment since the last call (source port identities)
+    fn announce_senders(&mut self) -> Vec<BTreeSet<([u8; 8], u16)>> {
+        let mut v = vec![];
+        for s in &self.sniffers {
+            let mut set = BTreeSet::new();
+            if let Some(s) = s {
+                while let Some(f) = s.recv() {
+                    if let Ok(m) = decode(&f) {
+                        if m.header.msg_type == T_ANNOUNCE {
+                            set.insert((m.header.source.clock, m.header.source.port));
+                        }
+                    }
+                }
+            }
+            v.push(set);
+        }
+        v
     }
 
     fn alive(&mut self, i: usize) -> bool {
@@ -239,6 +304,22 @@ impl NetD {
                 }
                 if ox.parent_ds.grandmaster_identity.0 != self.nodes[b].id {
                     return Some(format!("node {} follows grandmaster {:02x?} instead of the best node {}", x, ox.parent_ds.grandmaster_identity.0, b));
+                }
+                // the parent is a port in the master state on a segment shared with this node's slave port
+                let sp = (0..self.nodes[x].nports).find(|p| state(x, *p).starts_with("Slave")).unwrap();
+                let pp = ox.parent_ds.parent_port_identity;
+                match (0..n).find(|i| self.nodes[*i].id == pp.clock_identity.0 && active(*i)) {
+                    None => return Some(format!("node {} names a parent that is not an active node: {:02x?}", x, pp.clock_identity.0)),
+                    Some(pn) => {
+                        let pi = pp.port_number as usize;
+                        let shares = pi >= 1 && pi <= self.nodes[pn].nports && self.sc.segments.iter().any(|s| s.contains(&(pn, pi - 1)) && s.contains(&(x, sp)) && !self.cut.contains(&(pn, pi - 1)) && !self.cut.contains(&(x, sp)));
+                        if !shares {
+                            return Some(format!("node {} names port {} of node {} as its parent, which is not on the segment of its slave port", x, pi, pn));
+                        }
+                        if !state(pn, pi - 1).starts_with("Master") {
+                            return Some(format!("node {} names port {} of node {} as its parent, but that port is {}", x, pi, pn, state(pn, pi - 1)));
+                        }
+                    }
                 }
                 // parent chain with stepsRemoved decreasing by one
                 let mut cur = x;
@@ -350,8 +431,17 @@ fn phase(net: &mut NetD, what: &str, bound_ms: u64, out: &mut CaseOut, rendered:
     }
     let conv = last_fail.map(|x| x.0).unwrap_or(Duration::ZERO);
     let fp = net.fingerprint();
+    let _ = net.announce_senders();
     let f0 = Instant::now();
-    while f0.elapsed() < Duration::from_millis(12 * ANN_MS) {
+    // two ports of one instance on one segment keep each other passive by their Announces, once per interval: the
+    // no-flap window is ten times longer there (a beat between announce and BMCA timers needs time to show)
+    let same_inst = net.sc.segments.iter().any(|s| {
+        let mut v: Vec<usize> = s.iter().filter(|e| !net.cut.contains(e) && net.nodes[e.0].child.is_some()).map(|e| e.0).collect();
+        v.sort();
+        v.windows(2).any(|w| w[0] == w[1])
+    });
+    let window = if same_inst { 120 } else { 12 };
+    while f0.elapsed() < Duration::from_millis(window * ANN_MS) {
         std::thread::sleep(Duration::from_millis(50));
         if let Some(p) = net.evaluate() {
             out.fail(format!("daemons: steady state flaps {}", what), format!("{} ; {}", p, rendered));
@@ -360,6 +450,18 @@ fn phase(net: &mut NetD, what: &str, bound_ms: u64, out: &mut CaseOut, rendered:
         let now = net.fingerprint();
         if now != fp {
             out.fail(format!("daemons: steady state flaps {}", what), format!("{} -> {} ; {}", fp, now, rendered));
+            return None;
+        }
+    }
+    // on the wire: during those 12 intervals every segment carried the Announces of exactly one port
+    let senders = net.announce_senders();
+    for (si, set) in senders.iter().enumerate() {
+        if net.sniffers[si].is_none() {
+            continue;
+        }
+        let live = net.sc.segments[si].iter().filter(|e| !net.cut.contains(e) && net.nodes[e.0].child.is_some()).count();
+        if live > 0 && set.len() != 1 {
+            out.fail(format!("daemons: a segment carries the Announces of {} ports in the steady state {}", if set.len() == 0 { "no" } else { "several" }, what), format!("segment {}: {:02x?} ; {}", si, set.iter().map(|x| (x.0[5], x.1)).collect::<Vec<_>>(), rendered));
             return None;
         }
     }
@@ -379,6 +481,8 @@ pub fn case_c01(t: &mut Tape, max_nodes: usize, tag: &str) -> E2eOut {
     // the in-process bound (2*timeout+7)*(D+2) announce intervals with D <= n-1, in real time with 50 % slack,
     // plus 1.5 s for the start of the processes
     let bound = |extra_ms: u64| (2 * TIMEOUT + 7) * (n as u64 + 1) * ANN_MS * 3 / 2 + extra_ms;
+    // late join: the processes of the second phase need their start-up time, too
+    let extra2 = if matches!(sc.fault, Fault::LateJoin(..)) { 1500 } else { 0 };
     let Some(c1) = phase(&mut net, "after start", bound(1500), &mut out, &rendered) else {
         return E2eOut { out, inconclusive: None };
     };
@@ -392,12 +496,19 @@ pub fn case_c01(t: &mut Tape, max_nodes: usize, tag: &str) -> E2eOut {
             std::thread::sleep(Duration::from_millis(10 * ANN_MS));
             net.set_cut((a, b), false);
         }
+        Fault::LateJoin(i, idle_ms) => {
+            std::thread::sleep(Duration::from_millis(idle_ms));
+            if let Err(e) = net.spawn(i) {
+                return E2eOut { out, inconclusive: Some(e) };
+            }
+        }
+        Fault::JoinLater(a, b) => net.set_cut((a, b), false),
     }
     if !matches!(sc.fault, Fault::None) {
         if (0..n).all(|i| !net.alive(i)) {
             return E2eOut { out, inconclusive: None };
         }
-        let Some(c2) = phase(&mut net, "after the fault", bound(0), &mut out, &rendered) else {
+        let Some(c2) = phase(&mut net, "after the fault", bound(extra2), &mut out, &rendered) else {
             return E2eOut { out, inconclusive: None };
         };
         out.label(format!("daemons:conv-fault<={}", ((c2 / 8.0).ceil() * 8.0) as u64));
